@@ -2882,34 +2882,16 @@ template< size_t L>
 
 template< size_t L> void FixedString< L>::swap( FixedString& other) noexcept
 {
-   if (mLength == 0)
-   {
-      if (other.mLength > 0)
-      {
-         std::memcpy( mString, other.mString, other.mLength);
-         mLength = other.mLength;
-         other.mString[ 0] = '\0';
-         other.mLength = 0;
-      } // end if
-   } else if (other.mLength == 0)
-   {
-      std::memcpy( other.mString, mString, mLength);
-      other.mLength = mLength;
-      mString[ 0] = '\0';
-      mLength = 0;
-   } else
-   {
-      // copy my data into buffer
-      // then copy from other into this
-      // finally copy buffer into other
-      char          buffer[ L];
-      const size_t  length = mLength;
-      std::memcpy( buffer, mString, mLength + 1);
-      std::memcpy( mString, other.mString, other.mLength + 1);
-      mLength = other.mLength;
-      std::memcpy( other.mString, buffer, length + 1);
-      other.mLength = length;
-   } // end if
+   // copy my data (including the trailing zero) into buffer
+   // then copy from other into this
+   // finally copy buffer into other
+   char          buffer[ L + 1];
+   const size_t  length = mLength;
+   std::memcpy( buffer, mString, length + 1);
+   std::memcpy( mString, other.mString, other.mLength + 1);
+   mLength = other.mLength;
+   std::memcpy( other.mString, buffer, length + 1);
+   other.mLength = length;
 } // FixedString< L>::swap
 
 
